@@ -39,7 +39,15 @@ def jOutEntry (f : PhyVerif.C13.Name × Entry) : Json :=
 def getView (j : Json) : R View := do
   let rate ← fld j "rate" >>= asRat
   let namp ← getNat j "n_amplitudes"
-  pure { rate := rate, samples := ← getInts j "samples", spikeClusters := ← getNats j "sc",
+  -- the source's spike file: `samples` = spike_times.npy (in samples); `times_sec` = spikes.times*.npy (seconds),
+  -- optionally with `samples_file` = spikes.samples*.npy
+  let file ← if hasFld j "times_sec" then (do
+      let t ← getRats j "times_sec"
+      let s ← if hasFld j "samples_file" then some <$> getInts j "samples_file" else pure none
+      pure (SpikeFile.inSeconds t s))
+    else SpikeFile.inSamples <$> getInts j "samples"
+  let st := loadSpikeSamples rate file
+  pure { rate := rate, samples := st.1, times := st.2, spikeClusters := ← getNats j "sc",
          spikeTemplates := ← getNats j "st", amplitudes := List.replicate namp 0,
          nTemplates := ← getNat j "n_templates", channelMap := ← getNats j "channel_map",
          channelProbes := ← getNats j "channel_probes", features := ← getBool j "features" }
@@ -96,7 +104,7 @@ def runC13 (op : String) (j : Json) : R Json := do
                              ("templates", jNat s.nTemplates), ("channels", jNat s.nChannels)]),
       ("src", jList (fun (f : PhyVerif.C13.Name × Entry) => Json.arr #[Json.str (strOfName f.1), Json.str f.2.tag]) o.fs.src),
       ("out", jList jOutEntry o.fs.out),
-      ("times", jRats (timesOf v.rate v.samples)),
+      ("times", jRats v.times), ("samples", jInts v.samples),
       ("table", table),
       ("rows_ok", Json.bool (rowsOKb v o.fs.out)),
       ("frame_ok", Json.bool (frameOKb src o.fs.src))])
